@@ -26,7 +26,8 @@ IN_ITEMS = [
 ]
 OUT_ITEMS = [
     ("Q", "Q: str = 'q'\n"),
-    ("AA", "class AA(object):\n    att: int = 30\n\n    def mm(self, u: int, v=20):\n        return u\n"),
+    ("AA", "class AA(object):\n    att: int = 30\n\n    def mm(self, u: int, v=20):\n        return u\n\n"
+           "    @classmethod\n    def cm(cls, u: int = 1, v=20, w: str = 'w'):\n        return u\n"),
     ("gg", "def gg(u, v: int = 7, *, w=None):\n    return u\n"),
     # module-level names equal to the class attribute / an argument name, to tempt a lookup by simple name
     ("shadow", "att: int = 99\nu: int = 98\n"),
@@ -35,7 +36,7 @@ EVAL_PREFIX = ("from typing import Optional\nVALS = ('a', 'b', {tag!r})\nNUMS = 
                # evaluated collections with a repeated member / members that are equal across types
                "DUPS = ('x', {tag!r}, 'x')\nMIXED = (0, False, 1, True, {num})\n")
 IN_LOCS = ["Y", "A.attr", "A.opt", "A.m.a", "A.m.b", "g.a", "g.b", "g.k"]
-OUT_LOCS = ["Q", "AA.att", "AA.mm.u", "AA.mm.v", "gg.u", "gg.v", "gg.w"]
+OUT_LOCS = ["Q", "AA.att", "AA.mm.u", "AA.mm.v", "gg.u", "gg.v", "gg.w", "AA.cm.u", "AA.cm.v"]
 BAD_IN = ["Z", "A.zz", "g.zz"]
 BAD_OUT = ["ZZ", "gg.zz", "AA.mm.zz"]
 WRAP = "Optional[{output_param}]"
@@ -88,6 +89,13 @@ def build_cases(tier):
             for o in OUT_LOCS:
                 # (no wrap template here: an un-annotated input has no annotation to wrap, and doctrans says so)
                 cases.append({"oi": oi, "oo": oo, "pairs": [[i, o]], "wrap": False, "eval": False, "via": "api", "plain_assign": True})
+    # the input property has the same name as the addressed argument (its value then becomes the argument's default)
+    for oi, oo in multi_orders:
+        for wrap in (False, True):
+            for o in OUT_LOCS:
+                leaf = o.split(".")[-1]
+                if "." in o and leaf in ("u", "v", "w"):
+                    cases.append({"oi": oi, "oo": oo, "pairs": [[leaf, o]], "wrap": wrap, "eval": False, "via": "api", "overlap": True})
     # eval mode with the wrap template and several pairs (the same evaluated input used twice, two different inputs)
     for oi, oo in multi_orders:
         for wrap in (False, True):
@@ -236,7 +244,7 @@ class C14(core.Check):
         if case.get("plain_assign"):
             in_src += "\nX = 7\n\n\nclass P(object):\n    plain = 'p'\n"
         if case.get("overlap"):
-            in_src += "\nQ: float = 1.5\natt: bytes = b'x'\n"
+            in_src += "\nQ: float = 1.5\natt: bytes = b'x'\nu: float = 2.5\nv: int = 3\nw: bool = True\n"
         out_src = module_src(OUT_ITEMS, case["oo"])
         fin, fout = os.path.join(self._dir, "input_mod.py"), os.path.join(self._dir, "output_mod.py")
         with open(fin, "w") as f:
